@@ -336,6 +336,8 @@ func wellFormed(t []string) bool {
 		return len(t) == 1
 	case "range":
 		return len(t) == 5 && isInt(t[3]) && isInt(t[4])
+	case "pre":
+		return len(t) == 3 && isInt(t[1]) && isInt(t[2])
 	case "del":
 		return len(t) == 4 && isUint(t[3])
 	case "exp":
@@ -501,6 +503,11 @@ func (r *Runner) Op(t []string) string {
 				}
 			}
 			r.setData(&d)
+		}
+		return "ok"
+	case t[0] == "pre" && len(t) == 3:
+		if err := r.c.PrecreateShardGroups(tm(h.Atoi(t[1])), tm(h.Atoi(t[2]))); err != nil {
+			return errEnum(err)
 		}
 		return "ok"
 	case t[0] == "dropshard" && len(t) == 2:
